@@ -79,6 +79,12 @@ pub fn gen_ty(t: &mut Tape, nparams: usize, assoc: bool, depth: usize) -> Ty {
 }
 
 fn has_default(ty: &Ty) -> bool {
+    // serde's derive adds `T: Default` for a defaulted field mentioning a type parameter
+    let mut used = vec![];
+    ty.params_used(&mut used);
+    if !used.is_empty() {
+        return false;
+    }
     matches!(
         ty,
         Ty::U8 | Ty::U32 | Ty::U64 | Ty::I32 | Ty::Bool | Ty::Str | Ty::Uint128 | Ty::Binary
